@@ -260,6 +260,19 @@ for name, text, want in [("publish_safety", "P10D", D(days=10)), ("retire_safety
     if r[0] != "ok" or getattr(r[1].ksk_policy.signature_policy, name) != want:
         fail("valid", f"ksk_policy.{name} = {text} not loaded exactly")
 
+# the same period in every ISO 8601 notation the documentation allows (weeks, days, hours, minutes, seconds and their combinations) is the same period
+for i_ in range(40 * (1 if TIER == "quick" else 8)):
+    td = R.choice([D(days=R.randrange(0, 60)), D(days=R.randrange(7, 40), hours=R.randrange(24)), D(seconds=R.randrange(0, 40 * 86400)), D(days=7 * R.randrange(1, 6) + R.randrange(1, 7))])
+    nt = R.choice(["days", "weeks", "weeks", "hours", "minutes", "seconds", "days-hours"])
+    text = ksrxml.fmt_dur_as(td, nt)
+    name = KP[i_ % len(KP)]
+    c = copy.deepcopy(BASE)
+    c["ksk_policy"][name] = text
+    r = load(c)
+    count("valid-period-notation")
+    if r[0] != "ok" or getattr(r[1].ksk_policy.signature_policy, name) != td:
+        fail("valid", f"ksk_policy.{name} = {text} ({td}) is {'rejected (' + r[2] + ')' if r[0] != 'ok' else 'loaded as ' + str(getattr(r[1].ksk_policy.signature_policy, name))}", {"text": text})
+
 # ------------------------------------------------------------------ 3. exit status of the signer
 for label, cfg, want in [("unknown-section", {**copy.deepcopy(BASE), "xyzzy": 1}, "2"), ("bad-value", None, "2"), ("horizon-0", None, "2"), ("valid-config-missing-ksr", copy.deepcopy(BASE), "nonzero")]:
     if label == "bad-value":
@@ -341,7 +354,32 @@ def v_sha1(r): r["zsk"]["algs"] = r["zsk"]["algs"] + [("RSA", 5, 2048, 65537)]
 def v_algsize(r): r["zsk"]["algs"] = r["zsk"]["algs"] + [("RSA", 8, 4096, 65537)]
 
 
-RULES = {"declared-ecdsa-not-enabled": (v_ecdsa, None), "declared-rsasha1-unsupported": (v_sha1, None),
+Z1024 = [ksrxml.mk_key(P.rsa(1024, 65537, i), alg=8) for i in range(3)]
+P.save()
+
+
+def v_keysize(r):
+    # the keys offered are 1024-bit keys (honestly signed with them); the policy declares - and the operator approves - 2048 bits only
+    sub = {Z[i]["pub"]: Z1024[i] for i in range(3)}
+    for b in r["bundles"]:
+        b["keys"] = [dict(sub[k["pub"]]) for k in b["keys"]]
+        b["sigs"] = [ksrxml.mk_sig(k, b["keys"], b["inc"], b["exp"]) for k in b["keys"]]
+
+
+ZE3 = [ksrxml.mk_key(P.rsa(2048, 3, i), alg=8) for i in range(3)]
+P.save()
+
+
+def v_keyexp(r):
+    # the keys offered have public exponent 3 (honestly signed with them); the policy declares exponent 65537
+    sub = {Z[i]["pub"]: ZE3[i] for i in range(3)}
+    for b in r["bundles"]:
+        b["keys"] = [dict(sub[k["pub"]]) for k in b["keys"]]
+        b["sigs"] = [ksrxml.mk_sig(k, b["keys"], b["inc"], b["exp"]) for k in b["keys"]]
+
+
+RULES = {"key-size-not-declared": (v_keysize, "keys_match_zsk_policy"), "key-exponent-not-declared": (v_keyexp, ("keys_match_zsk_policy", "rsa_exponent_match_zsk_policy")),
+         "declared-ecdsa-not-enabled": (v_ecdsa, None), "declared-rsasha1-unsupported": (v_sha1, None),
          "declared-size-not-approved": (v_algsize, "signature_algorithms_match_zsk_policy"),
          "validity": (v_validity, "signature_validity_match_zsk_policy"), "overlap": (v_overlap, "check_bundle_overlap"),
          "interval": (v_interval, "check_bundle_intervals"), "horizon": (v_horizon, "signature_check_expire_horizon"),
@@ -367,8 +405,8 @@ try:
             pol = RequestPolicy(**kw)
             acc = C.judge(f"one-rule-{rule}", pol, xml=xml, desc={"violated": rule, "flag_off": off}, strict=rule != "pop")
             count("flag-matrix")
-            guards = {flag} | ({"check_cycle_length"} if rule == "interval" else set())
-            expected_accept = flag is not None and off == flag and rule != "interval"
+            flags_ = set(flag) if isinstance(flag, tuple) else {flag}
+            expected_accept = flag is not None and off in flags_ and rule != "interval"
             if rule == "interval":
                 continue   # interval shift also changes the cycle length: judged by the spec transcription inside C.judge only
             if acc is not None and acc != expected_accept:
